@@ -177,6 +177,12 @@ CheckDb(r) ==
   IN
   \* C17: deleting / re-owning / renaming touches only documents of the acting principals
   /\ \A i \in gone \cup moved : Report(OwnerOf(ById(before, i).code) \cap actors # {}, r.id, "C17", "foreign-document-deleted-or-reowned")
+  \* C17: whatever is written onto a document talks about that document's own statements only (labels carry the submitter)
+  /\ \A i \in changed :
+       LET d == ById(now, i)
+           own == RangeOf(Names(ParseLenient(d.code_cp).facts)) \cup UNION { AtomsOf(f[3]) : f \in RangeOf(Acs(ParseLenient(d.code_cp).facts)) }
+           labels == UNION { UNION { { x[2] : x \in RangeOf(e.models[j].labels) } : j \in DOMAIN e.models } : e \in RangeOf(d.per) }
+       IN Report(labels \subseteq own \cup {TOPcp, BOTcp}, r.id, "C17", "foreign-content-written-onto-document")
   \* C16: every (changed) stored document is consistent with its own code
   /\ \A i \in changed : CheckProblem(ById(now, i), r.id, "db", r.pending_writes = 0 /\ "final" \in DOMAIN r)
   \* C17: credentials are salted hashes, never the password
